@@ -6,12 +6,12 @@ import json
 from concurrent.futures import ThreadPoolExecutor
 import vlib, sysh, stopmodel
 
-HEAD = "init\npolicy 1:F:load 1:F:store 3:F:store 4:F:store 5:F:store\nZ1 start\nZ2 start\nS 1 0\n"
+HEAD = "init\npolicy 1:F:load 1:F:store 3:F:store 4:F:store 3:L:rmw 4:L:rmw\nZ1 start\nZ2 start\nS 1 0\n"
 LOGICAL = {"Z1": 3, "Z2": 4}
 
 
 def extract(exe):
-    evs = stopmodel.run(exe, HEAD + "Z1 log\nS 3 0\nS 1 0\nS 1 0\nS 1 0\ndrain 8\nend\n")
+    evs = stopmodel.run(exe, HEAD + "Z1 log\nS 3 0\nS 3 0\nS 1 0\nS 1 0\nS 1 0\ndrain 8\nend\n")
     k = {}
     steps = [e for e in evs if e["e"] in ("sstep", "zcall")]
     for e in evs:
@@ -29,22 +29,29 @@ def extract(exe):
         raise vlib.Infra(f"could not observe the accesses of the new-context flag: {k}")
     k["ClearBeforeCopy"] = at_store[0]["cache"] == base
     k["BaseCache"] = base
+    # where the registering thread parks first: at the lock (it pushes its context before it raises the flag) or at the flag
+    zc = [e for e in evs if e["e"] == "zcall"]
+    if not zc or zc[0].get("at") not in ("L:rmw", "F:store"):
+        raise vlib.Infra(f"could not observe the order of a registration: {zc[:1]}")
+    k["RegBeforeFlag"] = zc[0]["at"] == "L:rmw"
     return k
 
 
 def cfg_text(k, zs, export):
-    return ("SPECIFICATION Spec\nCONSTANTS Zs = {%s}\n MoSet = \"%s\"\n MoLoad = \"%s\"\n MoClear = \"%s\"\n ClearBeforeCopy = %s\n Export = %s\n"
+    return ("SPECIFICATION Spec\nCONSTANTS Zs = {%s}\n MoSet = \"%s\"\n MoLoad = \"%s\"\n MoClear = \"%s\"\n ClearBeforeCopy = %s\n RegBeforeFlag = %s\n Export = %s\n"
             "INVARIANTS NoLostCtx TypeOK\nCONSTRAINT Bound\nVIEW StateView\n%sCHECK_DEADLOCK FALSE\n"
-            % (",".join('"%s"' % z for z in zs), k["MoSet"], k["MoLoad"], k["MoClear"], "TRUE" if k["ClearBeforeCopy"] else "FALSE",
+            % (",".join('"%s"' % z for z in zs), k["MoSet"], k["MoLoad"], k["MoClear"], "TRUE" if k["ClearBeforeCopy"] else "FALSE", "TRUE" if k["RegBeforeFlag"] else "FALSE",
                "TRUE" if export else "FALSE", "ACTION_CONSTRAINT ExportA\n" if export else ""))
 
 
 def script_of(beh):
     L = [HEAD.rstrip("\n")]
+    called = set()
     for h in beh:
-        if h["a"] == "reg":
-            L.append(f"{h['t']} log")
-        elif h["a"] == "flag":
+        if h["a"] in ("reg", "flag"):
+            if h["t"] not in called:          # the first of the two steps of a registration: the log call starts (and parks)
+                called.add(h["t"])
+                L.append(f"{h['t']} log")
             L.append(f"S {LOGICAL[h['t']]} 0")
         elif h["a"] == "load":
             L.append(f"S 1 {h['arg'][0]}")
@@ -58,7 +65,7 @@ def compare(k, beh, evs):
         return "harness crashed or hung"
     if evs and evs[-1].get("badchoice"):
         return "a load value chosen by the model is not allowed by the harness' memory model"
-    steps = [e for e in evs if e["e"] in ("sstep", "zcall")][1:]      # (the first step moves the backend to its first flag load)
+    steps = [e for e in evs if e["e"] == "sstep"][1:]      # (the first step moves the backend to its first flag load)
     if len(steps) != len(beh):
         return f"harness ran {len(steps)} of {len(beh)} steps"
     facc = [e for e in evs if e["e"] == "acc" and e["obj"] == "F" and e["t"] == 1 and e["op"] == "load"]
@@ -66,10 +73,11 @@ def compare(k, beh, evs):
     for n, (h, st) in enumerate(zip(beh, steps)):
         if st.get("skipped"):
             return f"step {n + 1} ({h['a']}): the thread was not parked"
-        if h["a"] == "reg" and st.get("at") != "F:store":
-            return f"step {n + 1}: the registering thread is at '{st.get('at')}', model: registered, about to raise the flag"
-        if h["a"] == "flag" and st.get("at"):
-            return f"step {n + 1}: the registering thread parked again at {st.get('at')}"
+        if h["t"] != "B":
+            first = h["a"] == ("reg" if k["RegBeforeFlag"] else "flag")
+            want = ("F:store" if k["RegBeforeFlag"] else "L:rmw") if first else ""
+            if st.get("at", "") != want:
+                return f"step {n + 1} ({h['a']}): the registering thread is at '{st.get('at')}', model '{want}'"
         if h["t"] == "B":
             want = "F:store" if h["pcb"] == "clear" else "F:load"
             if st.get("at") != want:
